@@ -601,6 +601,7 @@ func (st *c10State) runOne(caseID string, pos int, r c10Run, what map[string]any
 	}
 	var got []string
 	var feed []obs.Rec
+	appended := 0
 	if r.Sink == "http" {
 		sawEnd := false
 		for _, h := range st.http.take(jobID) {
@@ -630,9 +631,14 @@ func (st *c10State) runOne(caseID string, pos int, r c10Run, what map[string]any
 			}
 			if r.Variant == "append" && strings.HasSuffix(f.ID, "-a") {
 				out.Stat("appended_entities_in_sink", 1)
+				appended++
 				continue // one per transform call; how many calls there are is the pipeline's business
 			}
 			got = append(got, c10Local(f.ID)+"|"+stamp+"|"+cp)
+		}
+		if r.Variant == "append" && len(exp) > 0 && appended == 0 && !seenBad {
+			// ... but every call pushed one created entity onto its input array and returned that array
+			viol(sfx("sink-missing/created-by-push-onto-the-input-array"), fmt.Sprintf("the transform pushed a created entity onto its input array in every call and returned that array; %d source entities went through it and none of the created entities reached the sink", len(exp)), ">= 1", 0)
 		}
 	}
 	switch r.Variant {
